@@ -200,7 +200,7 @@ Definition stored (ss : list stream) : list (nat * stream) :=
   filter (fun p => has_events (snd p)) (indexed 0 ss).
 Definition thread_chain avail (alloc : nat -> nat -> N) (ss : list stream) : list (N * list N) :=
   enc_table avail BT_THREAD (alloc 1%nat)
-    (map (fun p => ser_thread (thread_of alloc (fst p) (snd p))) (stored ss)).
+    (map (fun p => ser_thread (thread_of avail alloc (fst p) (snd p))) (stored ss)).
 Definition chains_of avail (alloc : nat -> nat -> N) (d : list kent) (ss : list stream)
   : list (nat * list (N * list N)) :=
   (0%nat, dict_chain avail alloc d) :: (1%nat, thread_chain avail alloc ss)
